@@ -1,4 +1,5 @@
 """C11 (engine CL) - see RULE."""
+from vlib.engines import bc as _bc
 from vlib.engines import cl
 from vlib.engines import grp as _grp
 from vlib.engines.base import drive, run_trace
@@ -24,12 +25,24 @@ class GrpEng(_grp.GRPEngine):
         return "group-request-timed-out" in self.nt
 
 
+class BcEng(_bc.BCEngine):
+    """'a reply that arrives after the timeout is discarded without disturbing any other request' at the broker connection: the owner
+    cancels a request at its timeout; its id may be used again (the api-versions retry does) before the late reply arrives"""
+
+    def nontrivial(self):
+        return "late-reply-to-cancelled" in self.nt
+
+
 def shard(ctx):
+    drive(ctx, BcEng, ctx.n(16 * 60, 16 * 1500), min_steps=6, max_steps=40, offset=7, props={"C11"})
     drive(ctx, GrpEng, ctx.n(16 * 60, 16 * 1500), min_steps=6, max_steps=50, offset=6, props={"C11"})
     drive(ctx, Eng, ctx.n(16 * 250, 16 * 6000), min_steps=8, max_steps=70, props={"C11"})
 
 
 def replay(case, ctx):
+    if isinstance(case, dict) and case.get("engine") == "BC":
+        run_trace(BcEng, case, ctx, props={"C11"})
+        return
     if isinstance(case, dict) and case.get("engine") == "GRP":
         run_trace(GrpEng, case, ctx, props={"C11"})
         return
@@ -43,5 +56,6 @@ RULE = (
     "survives the reply, a late reply changes no Deferred, every call resolves once faults stop. non-trivial = a request that timed out while another call "
     "was answered, or a late reply released; distinct = distinct trace."
     " Also: with disconnect_on_timeout the silent connection is dropped at every timeout (script 'timeout2': two timeouts in a row on one broker; 'noconn': a warm call, also acks=0, to a broker whose connection cannot be re-established); engine GRP traces: JoinGroup/SyncGroup/Heartbeat of the real Coordinator must not time out earlier than the timeout (35 s minimum for joins, measured from the call), must resolve by write time + that bound, and their silent connection must be dropped."
+    " At the broker connection (engine BC, script 'latereply'): a request cancelled by its owner (what the client does at the timeout) whose id is used again before its reply arrives - that late reply completes no other request."
 )
 ASSUMPTIONS = ["the timing clause is evaluated for warm calls only; cold calls first resolve routing, which the property does not bound"]
